@@ -8,9 +8,9 @@ CONSTANTS
   Emit = TRUE
   KnownClasses = {"grammar.sep.bf", "grammar.sep.hdr", "grammar.hex-ws", "grammar.ff-nul", "grammar.empty-section", "grammar.hdr-key", "font.enc.base", "font.enc.cmapname"}
   Rich = FALSE
-  Dev_gram = TRUE
   SingleRangeStr = TRUE
   Styles <- FontOnly
+  Dev_gram <- GramAsIs
   BaseVal <- BaseMid
 INVARIANTS RefinesExceptKnown AcceptsExceptKnown SegmentationOK MapsOK DomainOK BuildForm EmitInv
 CHECK_DEADLOCK FALSE
